@@ -724,7 +724,8 @@ func (a *Analysis) defFacts(instr ssa.Instruction) []Aff {
 	case *ssa.Call:
 		args := c.Call.Args
 		switch ssax.CalleeName(&c.Call) {
-		case "bytes.IndexByte", "strings.IndexByte", "strings.IndexRune", "bytes.LastIndexByte", "strings.LastIndexByte":
+		case "bytes.IndexByte", "strings.IndexByte", "strings.IndexRune", "bytes.LastIndexByte", "strings.LastIndexByte",
+			"slices.Index", "slices.IndexFunc", "bytes.IndexFunc", "strings.IndexFunc", "bytes.LastIndexFunc", "strings.LastIndexFunc":
 			r := a.I(c)
 			return []Aff{r.Add(K(1)), a.L(args[0]).Sub(K(1)).Sub(r)}
 		case "bytes.Index", "strings.Index", "strings.LastIndex", "bytes.LastIndex", "strings.IndexAny", "bytes.IndexAny":
